@@ -47,19 +47,36 @@ def raw_tt(tt, modes, r, gen, dt):
     return tt.TT(cores)
 
 
+INF_L = 1073741823
+
+
+def quantise(f):
+    """floats of a hook event -> logarithmic integers (field name + '_L'; the scale of spec/TraceTrunc.tla); a negative
+    value (the hook's 'not measured') and non-finite values become sentinels"""
+    from .truncrun import L, ZERO_L
+    out = {}
+    for k, v in f.items():
+        if isinstance(v, float):
+            out[k + "_L"] = (INF_L if not math.isfinite(v) else (-INF_L if v < 0 else (L(v) if v > 0 else ZERO_L)))
+        else:
+            out[k] = v
+    return out
+
+
 class Capture:
-    """context manager collecting the begin / step / end hook events of one sweep routine ('dmrg' or 'amen')"""
+    """context manager collecting the begin / step / sweep / end hook events of one sweep routine ('dmrg' or 'amen')"""
     def __init__(self, kind, active=True):
         self.kind, self.active = kind, active
-        self.begin, self.ev, self.end = None, [], None
+        self.begin, self.ev, self.sw, self.end = None, [], [], None
 
     def __enter__(self):
         from torchtt import _verif
         k = self.kind
 
         def sink(name, f):
-            if name == k + "_begin": self.begin, self.ev, self.end = f, [], None     # a nested / repeated call restarts the record
-            elif name == k + "_step": self.ev.append(f)
+            if name == k + "_begin": self.begin, self.ev, self.sw, self.end = f, [], [], None     # a nested / repeated call restarts the record
+            elif name == k + "_step": self.ev.append(quantise(f))
+            elif name == k + "_sweep": self.sw.append(quantise(f))
             elif name == k + "_end": self.end = f
         _verif.install(sink if self.active else None)
         return self
@@ -72,8 +89,11 @@ class Capture:
     def trace(self, cfg, result_R):
         if self.begin is None or self.end is None:
             return None
+        from .truncrun import L
         t = dict(self.begin)
-        t.update({"ev": self.ev, "end": self.end, "result_R": result_R, "cfg": cfg})
+        dd = len(t.get("M", t.get("S", [])))
+        t.update({"ev": self.ev, "sw": self.sw, "end": self.end, "result_R": result_R, "cfg": cfg,
+                  "dm1_L": L(max(dd - 1, 1)), "sqrtd_L": L(math.sqrt(max(dd, 1)))})
         return t
 
 
